@@ -4,6 +4,8 @@ Worker threads run harness bodies (real API calls on one shared model).  sys.set
 each worker; every `line` (or `opcode`) event of a frame whose code lives in the openskill package, and every
 thread end, is a scheduling point.  Exactly one thread is runnable at any time, so an execution is a function
 of (first thread, deviation map).  Exploration = iterative preemption bounding."""
+import copy
+import math
 import os
 import sys
 import threading
@@ -302,7 +304,10 @@ def harness(name, kind):
     def mk():
         core.deterministic_ids(7)
         ls_model = name == "H2"
-        m = cls(limit_sigma=True) if ls_model else cls()
+        if name == "H11":  # user-supplied gamma (the callback itself is user code, not a scheduling point) + large kappa: the floor engages
+            m = cls(gamma=lambda c, k, mu, ss, team, rank: 3.0 * math.sqrt(ss) / c * (1 + rank), kappa=0.3)
+        else:
+            m = cls(limit_sigma=True) if ls_model else cls()
         r = m.rating
         g0 = [[r(7 * b, s, "a0")], [r(5 * b, s, "a1")]]
         g1 = [[r(6.5 * b, s, "b0")], [r(5.5 * b, 2 * b, "b1")]]
@@ -336,6 +341,21 @@ def harness(name, kind):
         elif name == "H7":  # predictors against predictors (scratch data of the pairwise loops)
             bodies = [lambda: [_bits(m.predict_win(g2)), _bits(m.predict_rank(g2))],
                       lambda: [_bits(m.predict_win(g3)), _bits(m.predict_draw(g3)), _bits(m.predict_rank(g3))]]
+        elif name == "H10":  # two multi-team games at once: >= 3 teams, ties, multi-player team, out-of-order ranks, clamp on one side
+            bodies = [lambda: _bits(m.rate(g3, ranks=[1, 0, 1], limit_sigma=True)), lambda: _bits(m.rate(g2, scores=[3, 3, 1]))]
+        elif name == "H11":  # custom gamma + kappa floor on both sides, multi-player teams
+            g4 = [[r(7 * b, 2 * b, "e0"), r(5 * b, b, "e1")], [r(6 * b, 3 * b, "e2"), r(6 * b, s, "e3")]]
+            bodies = [lambda: _bits(m.rate(g3, ranks=[2, 0, 1])), lambda: _bits(m.rate(g4, ranks=[1, 0], tau=0.0))]
+        elif name == "H12":  # construction, copying and comparison of ratings from two threads: values as solo, ids distinct overall
+            def build(tag):
+                def body():
+                    made = [m.rating(), m.rating(1.5 * b, 0.5 * b, tag), m.create_rating([2.0 * b, 0.25 * b], tag + "c"), m.rating(name=tag + "d")]
+                    cp = copy.deepcopy([made[:2]])
+                    obs = [_bits(x) for x in made] + [[x.name for x in made], _bits(cp), [y.id == x.id for y, x in zip(cp[0], made)],
+                                                       made[1] < made[2], made[0] == made[3], _bits(sorted(made)), _bits(made[1].ordinal())]
+                    return {"obs": obs, "ids": [x.id for x in made]}
+                return body
+            bodies = [build("p"), build("q")]
         elif name == "H6":  # same-shaped concurrent updates with opposite outcomes + per-call tau on both
             bodies = [lambda: _bits(m.rate(g0, ranks=[0, 1], tau=0.25 * b)), lambda: _bits(m.rate(g1, ranks=[1, 0], tau=b))]
         else:
@@ -345,7 +365,7 @@ def harness(name, kind):
     return mk
 
 
-HARNESSES = ["H1", "H2", "H3", "H4", "H5", "H6", "H7", "H8", "H9"]
+HARNESSES = ["H1", "H2", "H3", "H4", "H5", "H6", "H7", "H8", "H9", "H10", "H11", "H12"]
 
 
 def solo(mk):
@@ -386,9 +406,15 @@ def check(ex, snap0, solo_res):
     if ex.deadlock:
         msgs.append("deadlock: no thread enabled while some thread has not finished")
         return msgs
+    ids = []
     for t, (got, want) in enumerate(zip(ex.results, solo_res)):
+        if got[0] == "ok" and isinstance(got[1], dict) and "ids" in got[1] and want[0] == "ok":
+            ids += got[1]["ids"]  # ids are compared for uniqueness across threads, not with the solo run (they are fresh by design)
+            got, want = ("ok", got[1]["obs"]), ("ok", want[1]["obs"])
         if got != want:
             msgs.append(f"thread {t} returned {got} under this schedule but {want} when run alone on a fresh model")
+    if len(set(ids)) != len(ids):
+        msgs.append(f"rating ids are not unique across the threads: {len(ids) - len(set(ids))} duplicate(s) among {len(ids)} ratings created concurrently")
     if ex.model_snap != snap0:
         msgs.append("model attributes after the concurrent calls differ from the initial ones: " + e2.diff_snap(snap0, ex.model_snap))
     return msgs
@@ -442,7 +468,7 @@ def explore(mk, gran, bound, shard=(0, 1), max_exec=None, end_choices="all", onl
     total = 0
 
     def account(ex, dev, first, cost):
-        key = repr(ex.results)
+        key = repr([(r[0], r[1]["obs"]) if (r and r[0] == "ok" and isinstance(r[1], dict) and "obs" in r[1]) else r for r in ex.results])
         res["outcomes"][key] = res["outcomes"].get(key, 0) + 1
         res["executions"][cost] += 1
         try:
